@@ -325,6 +325,40 @@ def dispatch_parts():
               ''',
               pre='broadcast use group_wire, lemma_remove_len;',
               ),
+            F('pump_write', fx=True, tags='C09,C10,C14', hoist=[('enum', 'ReceiverStatus')],
+              requires='old(self).inv(), // @core',
+              ensures='''
+                final(self).config == old(self).config && final(self).tr_read_same(old(self)), // @core
+                old(self).pending_requests@.drained ==> final(self).pending_requests@.drained, // @core
+                old(self).canceled_requests@.drained ==> final(self).canceled_requests@.drained, // @core
+                !(r matches Poll::Ready(Some(Err(_)))) ==> final(self).inv(), // @core
+                sub(final(self).in_flight_requests@, old(self).in_flight_requests@) || final(self).in_flight_requests@.dom().len() == old(self).in_flight_requests@.dom().len() + 1, // @C11
+                final(self).transport@.sent == old(self).transport@.sent || (exists|m: ClientMessage<Req>| final(self).transport@.sent == old(self).transport@.sent.push(m)), // @C03,C14
+                // the write pump never completes a call successfully: it only ever delivers errors (C01)
+                final(fx).log == old(fx).log || (exists|chan: int, e: RpcError| final(fx).log == old(fx).log.push(Effect::Deliver { chan, value: Err::<Resp, RpcError>(e) })), // @C01,C05
+                r matches Poll::Ready(Some(Err(e))) ==> (final(self).transport@.failed && (e is Ready || e is Flush || e is Close)) || e is Write, // @C09
+                r matches Poll::Ready(None) ==> final(self).pending_requests@.drained && final(self).canceled_requests@.drained && final(self).transport@.closed && final(self).transport@.unflushed == 0
+                    && final(self).transport@.sent == old(self).transport@.sent && final(self).table_same(old(self)) && final(fx).log == old(fx).log, // @C10
+                r is Pending ==> (final(self).transport@.unflushed == 0 || final(self).transport@.flush_reg), // @C14
+                r is Pending ==> final(self).transport@.sent == old(self).transport@.sent && final(self).table_same(old(self)) && final(fx).log == old(fx).log, // @C02,C14
+                r is Pending ==> (final(self).in_flight_requests@.dom().len() == 0 || final(self).in_flight_requests.timers_reg()), // @C02,C05
+              ''',
+              pre='broadcast use lemma_remove_len, lemma_insert_len;'),
+            F('run', fx=True, tags='C09,C10', attrs='#[verifier::exec_allows_no_decreases_clause]',
+              requires='old(self).inv(), // @core',
+              ensures='''
+                r matches Poll::Ready(Ok(())) ==> final(self).transport@.read_done
+                    || (final(self).pending_requests@.drained && final(self).canceled_requests@.drained && final(self).transport@.closed && final(self).transport@.unflushed == 0 && final(self).in_flight_requests@.dom().len() == 0), // @C10
+                r matches Poll::Ready(Err(e)) ==> e is Read || e is Write || (final(self).transport@.failed && (e is Ready || e is Flush || e is Close)), // @C09
+                r is Pending ==> final(self).inv(), // @core
+                r is Pending ==> (final(self).transport@.unflushed == 0 || final(self).transport@.flush_reg), // @C14
+                r is Pending ==> final(self).transport@.read_reg, // @C02
+                r is Pending ==> (final(self).in_flight_requests@.dom().len() == 0 || final(self).in_flight_requests.timers_reg() || final(self).transport@.closed), // @C02
+              ''',
+              loops=['''
+                invariant
+                    self.inv(), // @core
+              ''']),
         ]),
     ]
 
@@ -341,6 +375,6 @@ ACCESSOR_GUARDS = [
 def unit():
     return Unit('client', prelude=['base.rs', 'time.rs', 'delay_queue.rs', 'oneshot_tx.rs', 'transport.rs', 'client_queues.rs'],
                 parts=client_table.parts() + dispatch_parts(), rules=RULES,
-                fx_fns=client_table.FX_CALLS + [r'\.complete\(', r'self\.pump_read__closure\(', r'\.poll_expired\((?=cx, \|\|)'],
+                fx_fns=client_table.FX_CALLS + [r'\.complete\(', r'self\.pump_read__closure\(', r'\.pump_read\(', r'\.pump_write\(', r'\.poll_write_request\(', r'\.poll_expired\((?=cx, \|\|)'],
                 fx_prims=[r'response_completion\.send\('], fx_type='Fx<Res>',
                 accessor_guards=[(SRC, IMPL, n, rx) for n, rx in ACCESSOR_GUARDS])
